@@ -60,6 +60,8 @@ func vMkOwnerWorld(kind int) *vOwnerWorld {
 
 // TO2.ProveDevice against the real owner responder.
 func VerifC02_SetupDeviceSpec() {
+	verif.Expect("served")
+	verif.Expect("rejected")
 	verif.Bound("C02", "owner/device/manufacturer key kind in {P-256, P-384}; voucher with 1 entry; session: GUID present/absent, ProveDevice nonce present/absent, key-exchange session present/absent; EAT: payload present/null; nonce claim absent / 16 symbolic bytes / integer; UEID claim absent / 17 symbolic bytes / 16 bytes / integer; FDO claim absent / [bytes 1..2] / [] / [int] / [b,b] / bytes; unprotected SetupDevice nonce present/absent; protected alg in {ES256, ES384, unregistered}; signature symbolic; at most 2 (quick) / 3 (thorough) structural deviations from the honest shape per path")
 	kind := verif.Choose("kind", 2)
 	// deviation budget: at most 2 (quick) / 3 (thorough) structural deviations from the
@@ -70,6 +72,7 @@ func VerifC02_SetupDeviceSpec() {
 		if v != honest {
 			ndev++
 		}
+		verif.Assume(ndev <= 2+verif.Tier())
 		return v
 	}
 	hasGUID, hasNonce, hasSess := pick("hasguid", 2, 1), pick("hasnonce", 2, 1), pick("hassess", 2, 1)
